@@ -18,7 +18,20 @@ pub struct Parser<'a> {
     /// This is used in for-loop init expressions where 'in' separates
     /// the variable from the iterable (for x in obj).
     no_in: bool,
+    /// Current nesting of statements, expressions, patterns and types being parsed
+    depth: usize,
+    /// Address of a local of the outermost recursive step (0 until then)
+    stack_base: usize,
 }
+
+/// Deepest nesting of constructs the parser accepts. Recursive descent uses the native
+/// stack: without a limit, a few thousand nested parentheses overflow it and abort the process.
+const MAX_NESTING: usize = 512;
+
+/// Native stack the parser allows itself, in bytes, measured from its first recursive step.
+/// Frame sizes differ by an order of magnitude between build profiles, so the depth limit
+/// alone cannot keep an unoptimized build inside a 2 MiB thread stack.
+const MAX_PARSER_STACK: usize = 1024 * 1024;
 
 impl<'a> Parser<'a> {
     pub fn new(source: &'a str, string_dict: &'a mut StringDict) -> Self {
@@ -29,7 +42,33 @@ impl<'a> Parser<'a> {
             current,
             previous: Token::eof(0, 1, 1),
             no_in: false,
+            depth: 0,
+            stack_base: 0,
         }
+    }
+
+    /// Run a recursive parsing step one level deeper, refusing to exceed MAX_NESTING
+    #[inline]
+    fn nested<T>(
+        &mut self,
+        parse: impl FnOnce(&mut Self) -> Result<T, JsError>,
+    ) -> Result<T, JsError> {
+        let marker = 0u8;
+        let here = &marker as *const u8 as usize;
+        if self.depth == 0 {
+            self.stack_base = here;
+        }
+        if self.depth >= MAX_NESTING || self.stack_base.abs_diff(here) > MAX_PARSER_STACK {
+            return Err(JsError::syntax_error(
+                "Too much nesting",
+                self.current.span.line,
+                self.current.span.column,
+            ));
+        }
+        self.depth += 1;
+        let result = parse(self);
+        self.depth -= 1;
+        result
     }
 
     /// Helper to intern a string in the dictionary
@@ -83,6 +122,10 @@ impl<'a> Parser<'a> {
     // ============ STATEMENTS ============
 
     fn parse_statement(&mut self) -> Result<Statement, JsError> {
+        self.nested(Self::parse_statement_unguarded)
+    }
+
+    fn parse_statement_unguarded(&mut self) -> Result<Statement, JsError> {
         // Check for decorators first - they can precede class declarations
         if self.check(&TokenKind::At) {
             let decorators = self.parse_decorators()?;
@@ -289,6 +332,10 @@ impl<'a> Parser<'a> {
     }
 
     fn parse_binding_pattern(&mut self) -> Result<Pattern, JsError> {
+        self.nested(Self::parse_binding_pattern_unguarded)
+    }
+
+    fn parse_binding_pattern_unguarded(&mut self) -> Result<Pattern, JsError> {
         match &self.current.kind {
             TokenKind::Identifier(_) => {
                 let id = self.parse_identifier()?;
@@ -2111,6 +2158,10 @@ impl<'a> Parser<'a> {
     }
 
     fn parse_assignment_expression(&mut self) -> Result<Expression, JsError> {
+        self.nested(Self::parse_assignment_expression_unguarded)
+    }
+
+    fn parse_assignment_expression_unguarded(&mut self) -> Result<Expression, JsError> {
         // Check for yield expression
         if self.check(&TokenKind::Yield) {
             return self.parse_yield_expression();
@@ -2246,6 +2297,10 @@ impl<'a> Parser<'a> {
     }
 
     fn parse_unary_expression(&mut self) -> Result<Expression, JsError> {
+        self.nested(Self::parse_unary_expression_unguarded)
+    }
+
+    fn parse_unary_expression_unguarded(&mut self) -> Result<Expression, JsError> {
         let start = self.current.span;
 
         // `await x` is a unary expression: it can be an operand (`1 + await x`)
@@ -3620,6 +3675,10 @@ impl<'a> Parser<'a> {
     // ============ TYPE ANNOTATIONS ============
 
     fn parse_type_annotation(&mut self) -> Result<TypeAnnotation, JsError> {
+        self.nested(Self::parse_type_annotation_unguarded)
+    }
+
+    fn parse_type_annotation_unguarded(&mut self) -> Result<TypeAnnotation, JsError> {
         self.parse_conditional_type()
     }
 
